@@ -18,7 +18,7 @@ import (
 	"verifharness/internal/walkmodel"
 )
 
-var dirPool = []string{"a", "b", "c", "src", ".git", "sp ace", "-d", "a.b", "node_modules"}
+var dirPool = []string{"a", "b", "c", "src", ".git", "sp ace", "-d", "a.b", "node_modules", "+x"}
 var filePool = []string{"x.txt", "y.lock", "pkg.json", ".hidden", "-dash", "f g", "a.b.c", "noext", "run.sh", "z.txt", "b"}
 
 type treeOpts struct {
@@ -377,8 +377,13 @@ func genConfig(t *rapid.T, tr memfs.Tree, o cfgOpts) walkmodel.Config {
 				cfg.PathsToExtract = append(cfg.PathsToExtract, pickDir("path_dir"))
 			}
 		}
+		if len(cfg.PathsToExtract) > 0 && rapid.IntRange(0, 3).Draw(t, "root_too") == 0 {
+			// the scan root itself next to paths below it (their order as strings differs
+			// between the absolute and the root-relative spelling for names that sort before ".")
+			cfg.PathsToExtract = append(cfg.PathsToExtract, ".")
+		}
 		if len(cfg.PathsToExtract) > 0 {
-			cfg.IgnoreSubDirs = rapid.IntRange(0, 2).Draw(t, "ignore_subdirs") == 0
+			cfg.IgnoreSubDirs = rapid.IntRange(0, 1).Draw(t, "ignore_subdirs") == 0
 		}
 	}
 	if o.AllowSize && rapid.IntRange(0, 2).Draw(t, "use_size") == 0 && len(files) > 0 {
